@@ -1,6 +1,7 @@
 (* The context of a replaced sub-value inside the NEW value; its address; plugging the same sub-value back. *)
 From SF Require Import Base.Prelude Gen.Generated Unsized.Types Unsized.Parse Unsized.Machine Unsized.Ops.
 From SF Require Import Unsized.Proofs.EncodeParse Unsized.Proofs.Mem Unsized.Proofs.Notify Unsized.Proofs.Flat Unsized.Proofs.Layout Unsized.Proofs.Table Unsized.Proofs.Path Unsized.Proofs.Context.
+From SF Require Import Unsized.Proofs.EnumFacts.
 
 Arguments Z.add : simpl never.
 Arguments Z.sub : simpl never.
@@ -31,7 +32,7 @@ Lemma hctx_of_plug t v pi X xv x' d : resolve t v pi = Some (X, xv) ->
   d = zlen (encode X x') - zlen (encode X xv) ->
   hctx t (plug t v pi x') pi 0 = (fst (hctx t v pi d), snd (hctx t v pi 0)).
 Proof.
-  intros Hr ->. revert t v Hr. induction pi as [|[i|i] r IH]; intros t v Hr.
+  intros Hr ->. revert t v Hr. induction pi as [|[i|i|] r IH]; intros t v Hr.
   - reflexivity.
   - apply resolve_SF_inv in Hr as (ts & vs & ti & vi & -> & -> & Hti & Hvi & Hr).
     rewrite (plug_SF _ _ _ _ _ _ _ Hti Hvi).
@@ -48,6 +49,9 @@ Proof.
     replace (zlen (encode it (plug it (snd kv) r x')) - zlen (encode it (snd kv)))
       with (zlen (encode X x') - zlen (encode X xv)) by (rewrite (hctx_plug_len _ _ _ _ _ x' Hr); lia).
     reflexivity.
+  - apply resolve_SV_inv in Hr as (rw & vars & d0 & p & vt & -> & -> & Hf & Hr).
+    rewrite (plug_SV _ _ _ _ _ _ _ Hf). rewrite !(hctx_SV _ _ _ _ _ _ Hf). cbn [fst snd].
+    rewrite (IH _ _ Hr). reflexivity.
 Qed.
 
 Corollary addr_of_plug t v pi X xv x' b :
@@ -60,7 +64,7 @@ Qed.
 (* the untouched-value special case *)
 Lemma plug_same t v pi X xv : resolve t v pi = Some (X, xv) -> plug t v pi xv = v.
 Proof.
-  revert t v. induction pi as [|[i|i] r IH]; intros t v Hr.
+  revert t v. induction pi as [|[i|i|] r IH]; intros t v Hr.
   - cbn [resolve] in Hr. injection Hr as _ ->. reflexivity.
   - apply resolve_SF_inv in Hr as (ts & vs & ti & vi & -> & -> & Hti & Hvi & Hr).
     rewrite (plug_SF _ _ _ _ _ _ _ Hti Hvi), (IH _ _ Hr), (set_nth_same _ _ _ Hvi). reflexivity.
@@ -68,6 +72,8 @@ Proof.
     rewrite (plug_SE _ _ _ _ _ _ _ Hkv), (IH _ _ Hr).
     replace (fst kv, snd kv) with kv by (destruct kv; reflexivity).
     rewrite (set_nth_same _ _ _ Hkv). reflexivity.
+  - apply resolve_SV_inv in Hr as (rw & vars & d0 & p & vt & -> & -> & Hf & Hr).
+    rewrite (plug_SV _ _ _ _ _ _ _ Hf), (IH _ _ Hr). reflexivity.
 Qed.
 
 Print Assumptions hctx_of_plug.
